@@ -124,7 +124,7 @@ def run(pid, path):
         res = CR.run_crash([("r", GF.case_lines(rp["input"], rp["options"], st))], "replay")
         r = res.get("r", {"outcome": "none", "output": []})
         _print("REPLAY: outcome %s" % r["outcome"])
-        bad = (r["outcome"] or "none").split()[0] in ("panic", "process-crash", "engine-error", "hang", "none")
+        bad = (r["outcome"] or "none").split()[0] in ("panic", "process-crash", "engine-error", "hang", "none", "solve-error", "solver-error")
         for o in r["output"]:
             try:
                 fails = OF.check_output(rp["input"], rp["options"], json.loads(o))
